@@ -4,6 +4,16 @@ SHAPE_NOTE = ("Container shapes in the typing context are fixed and small while 
               "(floats as reals); pyvc itself is trusted (cross-checked against CPython on solver-generated inputs each run).")
 
 META = {
+    "C06": {
+        "text": "Biomolecule.apply_pka_values proved equal to the statement's decision rule (state flips exactly at "
+                "pH = pKa iff the force field can parameterise the state at that chain position, otherwise default "
+                "state + warning, every pKa entry consumed) for every real pH/pKa, 7 groups x 3 positions x 6 force "
+                "fields x every subset of side-chain/N+/C- entries; support is not read off the code but computed "
+                "from the real pipeline (X table, exhaustive).",
+        "note": "One residue per call (the loop body is independent per residue), residue number/chain concrete; "
+                "apply_patch is a trusted stub; PROPKA itself is external; the support oracle uses 3-residue fragments "
+                "of tests/data/1AFS.pdb. " + SHAPE_NOTE,
+    },
     "C13": {
         "text": "update_ss_bridges proved against the statement (exclusive close pairs bridged symmetrically, isolated "
                 "cysteines untouched) for every placement, numbering and chain assignment of 2-3 (thorough: 4) cysteines, "
